@@ -19,6 +19,7 @@ RULE = ("sequences of outcomes over an alphabet of 5 classes x message/location 
         "permutations of each random sequence; a case is non-trivial when it has >=2 elements of >=2 classes; "
         "distinct by content")
 ASSUMPTIONS = [
+    "the workflow-level stage (overall outcome of a real Workflow vs its steps' outcomes, with failing API calls) is an oracle on the real code only; the Workflow itself is modelled under C01/C02/C09",
     "inputs to combine are 'raw': an Ok's data is never the module-private _OkData wrapper (no caller can hold one)",
     "unwrapped_combine inputs are bare JSON values or non-Ok outcomes",
 ]
@@ -235,6 +236,67 @@ def check_one(ctx: Ctx, case, permute=True):
     return obs
 
 
+SEV_NAME = {"DepSkip": 0, "Skip": 1, "Ok": 2, "Retry": 3, "PermFail": 4}
+
+
+def workflow_stage(ctx: Ctx):
+    """The 'consequently' clause at the place the aggregation is USED: a real Workflow reports Ok only if
+    none of its steps is waiting or failed, and its overall class is the most severe class among its
+    steps' reported outcomes.  Oracle only (the workflow itself is modelled under C01/C09); reuses the
+    C09 plugin's workflow generator and fault runner, including steps that raise late."""
+    from props import C09
+    nwf = 3 if ctx.quick() else 12
+    todo = []
+    # regression shapes kept by the C09 check (independent Ok steps around a step whose API call fails, ...)
+    for wcase in corpus_cases("C09"):
+        if "wf" in wcase:
+            todo.append((wcase, [(pl["p"], {int(i): k for i, k in pl["faults"].items()},
+                                  {int(i): v for i, v in pl.get("latency", {}).items()})
+                                 for pl in wcase.get("plan", []) if all(k in ("exc", "http500", "srv500") for k in pl["faults"].values())]))
+    for j in range(nwf):
+        case = C09.gen_workflow(ctx.rng, script=["vf", "rf:patch", "vf", "vfdep", "rf:recreate"] if j == 0 else None)
+        case["initial_items"] = [[list(k), v] for k, v in C09.seed_objects(case).items()]
+        todo.append((case, None))
+    for case, fixed_plans in todo:
+        wf = C09.build(case)
+        if wf is None:
+            continue
+        ref = C09.reference_run(wf, {tuple(k): v for k, v in case.get("initial_items", [])})
+        if ref is None:
+            continue
+        plans = [(p, {}, {}) for p in range(len(ref))]
+        if fixed_plans is not None:
+            plans += [pl for pl in fixed_plans if pl[0] < len(ref)]
+        else:
+            for p, pe in enumerate(ref):
+                for i, c in enumerate(pe["calls"]):
+                    if c[0] != "GET":
+                        plans.append((p, {i: "exc"}, {i: 1.0}))      # the step raises after the others finished
+                        plans.append((p, {i: "http500"}, {}))
+                    elif ctx.rng.random() < 0.3:
+                        plans.append((p, {i: "srv500"}, {}))
+        for p, faults, latency in plans:
+            obs, fired, _rec = C09.fault_run(case, wf, ref, p, faults, latency)
+            ctx.count("workflow-level:" + ("faulted" if fired else "fault-free"))
+            if obs["escaped"] or obs["res"] is None:
+                continue                                         # C09's subject
+            steps = C09.step_outcomes(obs["rec"].wfs[0]) or {}
+            overall = C09.canon_oc(obs["res"].result)["cls"]
+            classes = [o["cls"] for o in steps.values()]
+            tag = {"case": C09.slim(case), "pass": p, "faults": {str(k): v for k, v in faults.items()},
+                   "latency": {str(k): v for k, v in latency.items()}}
+            ctx.note_case({"workflow": case["uid"], "pass": p, "faults": tag["faults"]}, nontrivial=len(set(classes)) >= 2,
+                          key=f"wf|{case['uid']}|{p}|{sorted(tag['faults'].items())}")
+            if classes and SEV_NAME[overall] != max(SEV_NAME[c] for c in classes):
+                ctx.fail(Failure(signature="workflow: overall outcome is not the most severe class among its steps",
+                                 what=f"overall {overall}, steps {classes}", case=tag, observed={"steps": steps}))
+            # ground truth for 'waiting or failed': a step whose own API call was made to fail did not succeed
+            if fired and any(k in ("exc", "http500", "srv500") for _i, k in fired) and overall in ("Ok", "Skip", "DepSkip"):
+                ctx.fail(Failure(signature="workflow: reports Ok/Skip although a step is waiting or failed",
+                                 what=f"overall {overall} although the API call of a step failed ({fired})",
+                                 case=tag, observed={"steps": steps}))
+
+
 def run(ctx: Ctx):
     cases, terms = [], []
     for case in gen_cases(ctx):
@@ -253,10 +315,25 @@ def run(ctx: Ctx):
         terms.append(to_coq(case, obs))
     if ctx.model_ok:
         ctx.correspond("result.combine / unwrapped_combine vs Outcome.combine", "Corr_C03", cases, terms)
+    workflow_stage(ctx)
 
 
 def replay(ctx: Ctx, data):
     case = data["case"] if "case" in data else data
+    if "xs" not in case:            # a workflow-level case
+        from props import C09
+        wcase = case["case"]
+        wf = C09.build(wcase)
+        ref = C09.reference_run(wf, {tuple(k): v for k, v in wcase.get("initial_items", [])})
+        obs, fired, _ = C09.fault_run(wcase, wf, ref, case["pass"], {int(k): v for k, v in case["faults"].items()},
+                                      {int(k): v for k, v in case["latency"].items()})
+        steps = C09.step_outcomes(obs["rec"].wfs[0]) or {}
+        overall = C09.canon_oc(obs["res"].result)["cls"]
+        if fired and overall in ("Ok", "Skip", "DepSkip"):
+            ctx.fail(Failure(signature="workflow: reports Ok/Skip although a step is waiting or failed",
+                             what=f"overall {overall}", case=case, observed={"steps": steps}))
+        ctx.note_case(case, True)
+        return
     ctx.model_ok and None
     obs = check_one(ctx, {"mode": case["mode"], "xs": case["xs"]})
     ctx.note_case(case, True)
